@@ -718,7 +718,10 @@ fn main() {
         if let Some(corpus) = zoo_corpus("c19") {
             for line in corpus.lines() {
                 if let Some(s) = parse_sched(line) {
-                    scheds.push(s);
+                    // corpus schedules are written for one protocol variant
+                    if kv(line).get("variant").map(|v| v == variant).unwrap_or(true) {
+                        scheds.push(s);
+                    }
                 } else if let Some(fr) = parse_free(line) {
                     frees.push(fr);
                 }
@@ -736,17 +739,16 @@ fn main() {
             }
         }
         // free-running cases: every initial cache state x shapes, with and without a kill
-        let n_free = if thorough { 120 } else if hook { 28 } else { 14 };
+        let n_free = if thorough { 150 } else { 36 };
         let libs = ["none", "stale", "fresh"];
         let shapes: [(usize, usize); 6] = [(2, 1), (1, 2), (3, 1), (2, 2), (4, 2), (1, 3)];
-        let mut stuck_later_budget = if hook { usize::MAX } else { 1 };
         for k in 0..n_free {
             let lib = libs[k % 3].to_string();
             let (procs, threads) = shapes[(k / 3) % shapes.len()];
             // in no-hook mode a leftover lock costs the real 30 s: only one such case (k == 1)
             let lock = if hook { rng.chance(1, 6) } else { false };
             let broken = rng.chance(1, 7);
-            let kill = if rng.chance(1, 2) { Some(rng.range(0, 260) as u64) } else { None };
+            let kill = if rng.chance(if hook { 3 } else { 2 }, 6) { Some(rng.range(0, 260) as u64) } else { None };
             let later = hook || kill.is_none();
             frees.push(Free {
                 id: format!("f{k}"),
@@ -758,20 +760,6 @@ fn main() {
                 later,
             });
         }
-        if !hook && stuck_later_budget > 0 {
-            // the confirmed finding, with the real 30 s constant
-            frees.push(Free {
-                id: "f-leftover-lock".into(),
-                setup: Setup { lib: "stale".into(), lock: true, temp: false, broken: false, scanner: false },
-                procs: 1,
-                threads: 1,
-                kill_after_ms: None,
-                victim: 0,
-                later: true,
-            });
-            stuck_later_budget -= 1;
-        }
-        let _ = stuck_later_budget;
     }
 
     // ---- run (cases are independent: private directories), in parallel
